@@ -41,11 +41,12 @@ mutual
         have h6 : els = .nil := by cases els <;> simp_all [Body.isNil]
         subst h6
         ts_unfold; simp [ih1, ih2, ih3]; omega
-    | .mtch cases, h => by
+    | .mtch cases dflt, h => by
         simp [wfC] at h
-        have ih := ts_Cases (d+1) cases h.2
-        have := le_docA 1 (d+1) cases .ts h.1 h.2
-        ts_unfold; simp [ih, h.1]; omega
+        have ih := ts_Cases (d+1) cases h.1.2
+        have ih2 := ts_default_of (d+1) dflt (ts_B (d+1) dflt h.2)
+        have := le_docA 1 (d+1) cases .ts h.1.1 h.1.2
+        ts_unfold; simp [ih, ih2, h.1.1]; omega
   theorem ts_B (d : Nat) : (b : Body) → wfB .ts b = true → tsVisitL incTs d (toTsB b) = docB 1 d b
     | .nil, _ => by simp [toTsB, tsVisitL, docB]
     | .cons c r, h => by
@@ -108,11 +109,12 @@ mutual
         have ih1 := rs_B (d+1) body h.2
         have := le_docB 1 (d+1) body h.1
         rs_unfold; simp [ih1]; omega
-    | .mtch cases, h => by
+    | .mtch cases dflt, h => by
         simp [wfC] at h
-        have ih := rs_Arms (d+1) cases h.2
-        have := le_docA 1 (d+1) cases .rs h.1 h.2
-        rs_unfold; simp [ih, h.1]; omega
+        have ih := rs_Arms (d+1) cases h.1.2
+        have ih2 := rs_default_of (d+1) dflt (rs_B (d+1) dflt h.2)
+        have := le_docA 1 (d+1) cases .rs h.1.1 h.1.2
+        rs_unfold; simp [ih, ih2, h.1.1]; omega
   theorem rs_B (d : Nat) : (b : Body) → wfB .rs b = true → tsVisitL incRs d (toRsB b) = docB 1 d b
     | .nil, _ => by simp [toRsB, tsVisitL, docB]
     | .cons c r, h => by
@@ -186,16 +188,25 @@ mutual
         simp [hh]
         simp only [Nat.add_assoc, Nat.reduceAdd]
         exact fin_step _ _ _ _ c this (Nat.le_max_left _ _)
-    | .mtch cases, h => by
+    | .mtch cases dflt, h => by
         simp [wfC] at h
-        have ih := py_A (d+2) cases h.2
+        have ih := py_A (d+2) cases h.1.2
+        have ih2 := py_B (d+2) dflt h.2
         have hc := py_cases (d+1) cases
-        have := le_docA 2 (d+3) cases .py h.1 h.2
-        simp only [Nat.add_assoc, Nat.reduceAdd] at ih hc this
+        have hd := py_default (d+1) (toPyB dflt)
+        have := le_docA 2 (d+3) cases .py h.1.1 h.1.2
+        simp only [Nat.add_assoc, Nat.reduceAdd] at ih ih2 hc hd this
         py_unfold
-        simp [hc, h.1]
-        simp only [Nat.add_assoc, Nat.reduceAdd] at *
-        omega
+        simp [hc, hd, h.1.1]
+        cases dflt with
+        | nil =>
+          simp [toPyB, docB] at ih2 ⊢
+          simp only [Nat.add_assoc, Nat.reduceAdd] at *
+          omega
+        | cons c r =>
+          simp only [toPyB] at ih2 ⊢
+          simp only [Nat.add_assoc, Nat.reduceAdd] at *
+          omega
   theorem py_B (d : Nat) : (b : Body) → wfB .py b = true →
       max d (pyVisitL pyCs d (toPyB b)) + 1 = max (d+1) (docB 2 (d+1) b)
     | .nil, _ => by simp [toPyB, pyVisitL, docB]
@@ -254,7 +265,7 @@ mutual
         simp [noMatchC] at h
         simp [docC, noMatch_B m (d+1) a h.1.1.1, noMatch_A m (d+1) b h.1.1.2, noMatch_B m (d+1) c h.1.2,
           noMatch_B m (d+1) e h.2]
-    | .mtch _, h => by simp [noMatchC] at h
+    | .mtch _ _, h => by simp [noMatchC] at h
     | .clos a, h => by
         simp [noMatchC] at h
         simp [docC, noMatch_B m (d+1) a h]
@@ -342,11 +353,12 @@ mutual
         have h3 := doc_shift_B m (d+1) c; have h4 := doc_shift_B m (d+1) e
         simp only [docC, h1, h2, h3, h4]
         cases hb : b.allNil <;> cases a <;> cases c <;> cases e <;> simp [docB, docA_allNil, hb, Body.isNil] <;> omega
-    | .mtch a => by
+    | .mtch a b => by
         have h2 := doc_shift_A m (d+m) a
+        have h3 := doc_shift_B m (d+m) b
         have e : d + 1 + m = d + m + 1 := by omega
-        simp only [docC, e, h2]
-        cases hb : a.allNil <;> simp [docA_allNil, hb] <;> omega
+        simp only [docC, e, h2, h3]
+        cases hb : a.allNil <;> cases b <;> simp [docA_allNil, hb, docB, Body.isNil] <;> omega
     | .clos a => by
         have h1 := doc_shift_B m (d+1) a
         simp only [docC, h1]
@@ -373,7 +385,7 @@ theorem wrap_succ (d : Nat) (c : Ctl) (k : LoopK) (a : Bool) :
     docC 1 d (.wth a (.cons c .nil)) = docC 1 d c + 1 ∧
     docC 1 d (.clos (.cons c .nil)) = docC 1 d c + 1 ∧
     docC 1 d (.ifc (.cons c .nil) .nil .nil) = docC 1 d c + 1 ∧
-    docC 1 d (.mtch (.cons (.cons c .nil) .nil)) = docC 1 d c + 1 ∧
+    docC 1 d (.mtch (.cons (.cons c .nil) .nil) .nil) = docC 1 d c + 1 ∧
     docC 1 d (.tryc (.cons c .nil) .nil .nil (.cons .stmt .nil)) = docC 1 d c + 1 := by
   have h := doc_shift_C 1 d c
   have := le_docC 1 d c
@@ -393,7 +405,7 @@ theorem body_depth_is_max (m d : Nat) (c : Ctl) (r : Body) :
 def exDoc : Body :=
   .cons .stmt (.cons (.ifc (.cons (.loop .forL (.cons (.loop .whileL (.cons .stmt .nil) .nil) .nil) .nil) .nil) .nil .nil) .nil)
 /-- a `match` with one statement per case -/
-def exMatch : Body := .cons (.mtch (.cons (.cons .stmt .nil) (.cons (.cons .stmt .nil) .nil))) .nil
+def exMatch : Body := .cons (.mtch (.cons (.cons .stmt .nil) (.cons (.cons .stmt .nil) .nil)) (.cons .stmt .nil)) .nil
 
 /-- the hypotheses of the theorems are satisfiable, and the example has documented depth 4 -/
 example : wfB .ts exDoc = true ∧ wfB .rs exDoc = true ∧ wfB .py exDoc = true ∧ noMatchB exDoc = true ∧
